@@ -49,10 +49,18 @@ def replaceAll (pairs : List (Bytes × Bytes)) : Nat → Bytes → Bytes
 
 /-! ### global path variables, from the source -/
 
-def globalVar (name : Bytes) : Bytes :=
-  match Facts.globalVarsB.find? fun kv => kv.1 = name with
+/-- the package-level map `globalVars` as it stands at one registration: (name, regex); the first binding of a
+    name is the live one (`rux.SetGlobalVar` puts a new binding in front) -/
+abbrev GVars := List (Bytes × Bytes)
+
+/-- `getGlobalVar(name, anyMatch)` -/
+def globalVarIn (gv : GVars) (name : Bytes) : Bytes :=
+  match gv.find? fun kv => kv.1 = name with
   | some kv => kv.2
   | none => Facts.anyMatchB
+
+/-- with the map of the source text (nobody called `SetGlobalVar`) -/
+def globalVar (name : Bytes) : Bytes := globalVarIn Facts.globalVarsB name
 
 /-! ### structured pattern -/
 
@@ -193,14 +201,16 @@ structure VarInfo where
   regex : Bytes
   hasRegex : Bool
 
-def parseVar (str : Bytes) : VarInfo :=
+def parseVarIn (gv : GVars) (str : Bytes) : VarInfo :=
   let nv := (str.drop 1).dropLast
   match Bytes.indexByte nv 0x3A with
   | some pos =>
     if pos > 0 then
       { str := str, name := Bytes.trimSpace (nv.take pos), regex := Bytes.trimSpace (nv.drop (pos + 1)), hasRegex := true }
-    else { str := str, name := nv, regex := globalVar nv, hasRegex := false }
-  | none => { str := str, name := nv, regex := globalVar nv, hasRegex := false }
+    else { str := str, name := nv, regex := globalVarIn gv nv, hasRegex := false }
+  | none => { str := str, name := nv, regex := globalVarIn gv nv, hasRegex := false }
+
+def parseVar (str : Bytes) : VarInfo := parseVarIn Facts.globalVarsB str
 
 def wrapBraces (n : Bytes) : Bytes := [0x7B] ++ n ++ [0x7D]
 def wrapParens (v : Bytes) : Bytes := [0x28] ++ v ++ [0x29]
@@ -235,8 +245,9 @@ def finish (regexStr start first spath : Bytes) (names : List Bytes) : Compiled 
     else .ok { regexStr := regexStr, start := start, first := first, names := names, spath := spath,
                levels := ls, runeSens := allRuneSens ls }
 
-/-- `parseParamRoute` for a (formatted, non-fixed) route path -/
-def compileRoute (path : Bytes) : Compiled :=
+/-- `parseParamRoute` for a (formatted, non-fixed) route path; `gv` = the global path variables in force when
+    the route is registered (a plain `{name}` is resolved through them at that moment, once) -/
+def compileRouteIn (gv : GVars) (path : Bytes) : Compiled :=
   let ss := findVars (path.length + 1) path
   if ss.isEmpty then
     -- no vars, but contains optional char
@@ -244,7 +255,7 @@ def compileRoute (path : Bytes) : Compiled :=
     | none => .reject .optional
     | some regexStr => finish regexStr [] [] [] []
   else
-    let vars := ss.map parseVar
+    let vars := ss.map (parseVarIn gv)
     if vars.any fun v => !goodRegexString v.regex then .reject .varRegex else
     let names := vars.map (·.name)
     let rawVar := (vars.filter (·.hasRegex)).map fun v => (v.str, wrapBraces v.name)
@@ -280,6 +291,9 @@ def compileRoute (path : Bytes) : Compiled :=
     | some path3 =>
       let regexStr := replaceAll varRe (path3.length + 1) path3
       finish regexStr start firstSeg spath names
+
+/-- with the global variables of the source text -/
+def compileRoute (path : Bytes) : Compiled := compileRouteIn Facts.globalVarsB path
 
 /-- `isFixedPath` -/
 def isFixedPath (s : Bytes) : Bool := (Bytes.indexByte s 0x7B).isNone && (Bytes.indexByte s 0x5B).isNone
